@@ -1,17 +1,17 @@
 ---- MODULE MC_Index ----
 EXTENDS Index
 CONSTANTS MaxS
-U == { [rank |-> 1,  base |-> <<"C","O">>, surface |-> TRUE,  sgroup |-> 0, charge |-> 0],      \* #CO
-       [rank |-> 2,  base |-> <<"C","O">>, surface |-> TRUE,  sgroup |-> 2, charge |-> 0],      \* #2CO
-       [rank |-> 3,  base |-> <<"C","O">>, surface |-> FALSE, sgroup |-> 0, charge |-> 0],      \* CO
-       [rank |-> 4,  base |-> <<"G","R","A","I","N">>, surface |-> FALSE, sgroup |-> 0, charge |-> -1],  \* GRAIN-
-       [rank |-> 5,  base |-> <<"G","R","A","I","N">>, surface |-> FALSE, sgroup |-> 0, charge |-> -2],  \* GRAIN--
-       [rank |-> 6,  base |-> <<"H","2","*">>, surface |-> FALSE, sgroup |-> 0, charge |-> 0],   \* H2*
-       [rank |-> 7,  base |-> <<"H","e">>, surface |-> FALSE, sgroup |-> 0, charge |-> 2],       \* He++
-       [rank |-> 8,  base |-> <<"c","-","C","3","H","2">>, surface |-> FALSE, sgroup |-> 0, charge |-> 0], \* c-C3H2
-       [rank |-> 9,  base |-> <<"e">>, surface |-> FALSE, sgroup |-> 0, charge |-> -1],          \* e-
-       [rank |-> 10, base |-> <<"o","H","2","D">>, surface |-> FALSE, sgroup |-> 0, charge |-> 1] } \* oH2D+
-WithDegree == UNION { {[rank |-> u.rank, base |-> u.base, surface |-> u.surface, sgroup |-> u.sgroup, charge |-> u.charge, degree |-> d] : d \in 0..2} : u \in U }
+U == { [rank |-> 1,  base |-> <<"C","O">>, key |-> <<"C","O">>, surface |-> TRUE,  sgroup |-> 0, charge |-> 0],      \* #CO
+       [rank |-> 2,  base |-> <<"C","O">>, key |-> <<"C","O">>, surface |-> TRUE,  sgroup |-> 2, charge |-> 0],      \* #2CO
+       [rank |-> 3,  base |-> <<"C","O">>, key |-> <<"C","O">>, surface |-> FALSE, sgroup |-> 0, charge |-> 0],      \* CO
+       [rank |-> 4,  base |-> <<"G","R","A","I","N">>, key |-> <<"G","R","A","I","N">>, surface |-> FALSE, sgroup |-> 0, charge |-> -1],  \* GRAIN-
+       [rank |-> 5,  base |-> <<"G","R","A","I","N">>, key |-> <<"G","R","A","I","N">>, surface |-> FALSE, sgroup |-> 0, charge |-> -2],  \* GRAIN--
+       [rank |-> 6,  base |-> <<"H","2","*">>, key |-> <<"H","2","*">>, surface |-> FALSE, sgroup |-> 0, charge |-> 0],   \* H2*
+       [rank |-> 7,  base |-> <<"H","e">>, key |-> <<"H","e">>, surface |-> FALSE, sgroup |-> 0, charge |-> 2],       \* He++
+       [rank |-> 8,  base |-> <<"c","-","C","3","H","2">>, key |-> <<"c","-","C","3","H","2">>, surface |-> FALSE, sgroup |-> 0, charge |-> 0], \* c-C3H2
+       [rank |-> 9,  base |-> <<"e">>, key |-> <<"e">>, surface |-> FALSE, sgroup |-> 0, charge |-> -1],          \* e-
+       [rank |-> 10, base |-> <<"o","H","2","D">>, key |-> <<"o","H","2","D">>, surface |-> FALSE, sgroup |-> 0, charge |-> 1] } \* oH2D+
+WithDegree == UNION { {[rank |-> u.rank, base |-> u.base, key |-> u.key, surface |-> u.surface, sgroup |-> u.sgroup, charge |-> u.charge, degree |-> d] : d \in 0..2} : u \in U }
 Pairs2 == UNION { {{a, b} : b \in {x \in WithDegree : x.rank > a.rank}} : a \in WithDegree }
 Triples == UNION { UNION { {{a, b, c} : c \in {x \in WithDegree : x.rank > b.rank /\ x.degree = 1}} : b \in {x \in WithDegree : x.rank > a.rank /\ x.degree = 0} } : a \in WithDegree }
 Sets == {{a} : a \in WithDegree} \cup (IF MaxS >= 2 THEN Pairs2 ELSE {}) \cup (IF MaxS >= 3 THEN Triples ELSE {})
